@@ -413,7 +413,12 @@ func (ps *peerScore) AddPenalty(p peer.ID, count int) {
 
 // periodic maintenance
 func (ps *peerScore) background(ctx context.Context) {
-	refreshScores := time.NewTicker(ps.params.DecayInterval)
+	// partially specified parameter sets may leave the decay interval unset
+	decayInterval := ps.params.DecayInterval
+	if decayInterval <= 0 {
+		decayInterval = DefaultDecayInterval
+	}
+	refreshScores := time.NewTicker(decayInterval)
 	defer refreshScores.Stop()
 
 	refreshIPs := time.NewTicker(time.Minute)
